@@ -25,3 +25,57 @@ Qed.
 (* the same draw under the current format *)
 Lemma format_uuid_same_draw : len (format_uuid 291 1 1711276032) = 32.
 Proof. vm_compute. reflexivity. Qed.
+
+(** Historical (before commit 5ca39dc "fix: handle_peer_message answers method calls only"):
+    handle_peer_message did not look at the message type, so a signal, method return or error whose
+    header named org.freedesktop.DBus.Peer + Ping/GetMachineId was answered with a method return,
+    against "every other message is reported as not handled without any reply being written". *)
+Section OldHandler.
+  Variable utf8_valid : list N -> bool.
+
+  (* the old handle_peer_message: the current one without the leading type test *)
+  Definition handle_peer_message_old (e : env) (f : fs) (m : msg) : outcome (bool * list msg * fs) :=
+    match dh_interface (m_dh m) with
+    | Some interface =>
+        if str_eqb interface peer_iface then
+          match dh_member (m_dh m) with
+          | Some member =>
+              if str_eqb member ping_name then
+                Ok (true, [make_response (m_dh m)], f)
+              else if str_eqb member get_machine_id_name then
+                match get_machine_id utf8_valid e f with
+                | Ok (id, f1) =>
+                    if existsb (N.eqb 0) id then Panic
+                    else Ok (true, [push_str id (make_response (m_dh m))], f1)
+                | OutOfFuel => OutOfFuel
+                | _ => Panic
+                end
+              else Ok (false, [], f)
+          | None => Ok (false, [], f)
+          end
+        else Ok (false, [], f)
+    | None => Ok (false, [], f)
+    end.
+
+  (* witness: a SIGNAL named Peer.Ping (serial 7, sender ":1.1") *)
+  Definition ping_signal : msg :=
+    mkMsg MSignal (mkDH (Some peer_iface) (Some ping_name) (Some [47]) None (Some 7) (Some [58;49;46;49]) None None None None) 0 [].
+
+  Lemma ping_signal_not_a_call : ~ IsPeerCall ping_signal.
+  Proof. intros [[H _]|[H _]]; discriminate. Qed.
+
+  Theorem C20_old_handler_refuted :
+    exists m, ~ IsPeerCall m /\ forall e f, handle_peer_message_old e f m <> Ok (false, [], f).
+  Proof.
+    exists ping_signal. split; [exact ping_signal_not_a_call|]. intros e f. vm_compute. discriminate.
+  Qed.
+
+  (* the signal was answered with a method return carrying its serial, addressed to its sender *)
+  Lemma old_handler_answers_signal e f :
+    handle_peer_message_old e f ping_signal = Ok (true, [make_response (m_dh ping_signal)], f).
+  Proof. reflexivity. Qed.
+
+  (* the current handler on the same message *)
+  Lemma new_handler_ignores_signal e f : handle_peer_message utf8_valid e f ping_signal = Ok (false, [], f).
+  Proof. reflexivity. Qed.
+End OldHandler.
